@@ -370,7 +370,7 @@ PROPS["C10"] = dict(
                "MurmurHash is not required - the statement asks for a function of the value.",
     quick=[("asan", 16, 150), ("plain", 8, 150)],
     thorough=[("asan", 16, 6000), ("plain", 16, 20000), ("memcheck", 8, 7, {"budget": 900})],
-    floors={"quick": {"assigns_onto_a_longer_tuple": 100, "cross_kind_sequence_assigns": 100, "sequences_cut_back_with_resize": 300, "lists_grown_with_resize": 100, "sized_map_history_groups": 1000, "sized_map_histories_value_wider_than_key": 200, "blob_swaps_size_not_multiple_of_8": 1000, "blob_array_sorts": 1000, "allocation_class_groups": 500, "signed_zero_pairs": 100, "cross_kind_equal_pairs": 2000,
+    floors={"quick": {"near_miss_map_pairs": 5000, "assigns_onto_a_longer_tuple": 100, "cross_kind_sequence_assigns": 100, "sequences_cut_back_with_resize": 300, "lists_grown_with_resize": 100, "sized_map_history_groups": 1000, "sized_map_histories_value_wider_than_key": 200, "blob_swaps_size_not_multiple_of_8": 1000, "blob_array_sorts": 1000, "allocation_class_groups": 500, "signed_zero_pairs": 100, "cross_kind_equal_pairs": 2000,
                       "sequence_history_groups": 500, "map_history_groups": 1000, "swaps": 2000,
                       "hash_data_alignment_sweeps": 500, "table_eq_reproducer_runs": 1}},
     rule="case = one group of scalar allocation classes, six equal sequences, two times three equal maps, a hash_data "
@@ -451,7 +451,7 @@ PROPS["C08"] = dict(
                       "dispatches_to_missing_class": 500, "concurrent_cold_start_trials": 200,
                       "random_lookup_histories": 50, "oversized_type_attempts": 1, "terminal_reproducer_runs": 1,
                       "near_name_classes_declared": 200, "undeclared_near_name_lookups": 10000,
-                      "foreach_over_empty_iter_init": 300, "foreach_over_type_without_iter": 100, "foreach_reaching_empty_iter_next": 150, "foreach_complete_walks": 150, "fallback_types": 500, "same_name_type_pairs": 100, "cold_type_objects_used_as_receivers": 1000, "concurrent_warm_method_lookups": 1000000, "fallback_calls_to_empty_member": 3000, "fallback_calls_to_filled_member": 1500}},
+                      "fallback_types_declaring_alloc": 200, "fallback_types_overriding_half_of_alloc": 80, "foreach_over_empty_iter_init": 300, "foreach_over_type_without_iter": 100, "foreach_reaching_empty_iter_next": 150, "foreach_complete_walks": 150, "fallback_types": 500, "same_name_type_pairs": 100, "cold_type_objects_used_as_receivers": 1000, "concurrent_warm_method_lookups": 1000000, "fallback_calls_to_empty_member": 3000, "fallback_calls_to_filled_member": 1500}},
     rule="case = a run-time type with a random instance list and all its dispatcher calls, or a random history of "
          "200-600 lookups over all known types (cold or warm), or 10-40 concurrent cold-start trials; the built-in "
          "matrix is enumerated completely by shard 0; distinct = hash of the case description; non-trivial = every "
